@@ -108,6 +108,15 @@ pub struct Read {
 
 thread_local! {
     static READS: RefCell<Vec<Read>> = const { RefCell::new(Vec::new()) };
+    /// Top of the stack of the VM that last reported on this thread (breadth guard, see run.rs).
+    static LAST_TOP: std::cell::Cell<i64> = const { std::cell::Cell::new(i64::MIN) };
+}
+
+pub fn last_top() -> i64 {
+    LAST_TOP.with(|c| c.get())
+}
+fn set_last_top(vm: &Vm) {
+    LAST_TOP.with(|c| c.set(vm.stack.last().copied().unwrap_or(i64::MIN)));
 }
 
 pub fn drain_reads() -> Vec<Read> {
@@ -235,6 +244,7 @@ impl Recorder {
 impl essential_vm::verif::Observer for Recorder {
     fn enter(&self, id: u64, vm: &Vm) {
         if self.enabled.load(Ordering::Relaxed) {
+            set_last_top(vm);
             // reads left over on this thread belong to nobody
             drain_reads();
             self.push(id, Ev::Enter { snap: snap(vm) });
@@ -242,6 +252,7 @@ impl essential_vm::verif::Observer for Recorder {
     }
     fn op(&self, id: u64, pc: usize, op: &Op, op_gas: u64, gas_spent: u64, ok: bool, vm: &Vm) {
         if self.enabled.load(Ordering::Relaxed) {
+            set_last_top(vm);
             let reads = drain_reads();
             self.push(id, Ev::Op { pc, op: *op, op_gas, gas_spent, ok, snap: snap(vm), reads });
         }
